@@ -1,2 +1,2 @@
-// Package c20 holds the scenario family of property C20.
+// Package c20 holds the scenario family of property C20 (URL fidelity): see c20.go.
 package c20
